@@ -224,7 +224,22 @@ def main():
         lines.append('KNOWN-FINDING: property=%s %s [%s] (%d cases)' % (pid, known[sig].get('what', ''), sig, agg.vcount[sig]))
     MAX_CONFIRM = 12
     not_repro = []
-    for sig in unknown[:MAX_CONFIRM]:
+    # the signatures to confirm are taken round-robin over the violation kinds (second field of a signature), so that one
+    # numerous kind does not use up the budget; when nothing has been confirmed the search goes on up to three budgets
+    by_kind = {}
+    for sig in unknown:
+        by_kind.setdefault(sig.split('|')[1] if '|' in sig else '', []).append(sig)
+    ordered = []
+    while any(by_kind.values()):
+        for k in sorted(by_kind):
+            if by_kind[k]:
+                ordered.append(by_kind[k].pop(0))
+    unknown = ordered
+    tried = 0
+    for sig in unknown:
+        if tried >= MAX_CONFIRM and (confirmed_unknown or tried >= 3 * MAX_CONFIRM):
+            break
+        tried += 1
         size, v = agg.violations[sig]
         os.makedirs(rdir, exist_ok=True)
         path = os.path.join(rdir, sig_file(sig) + '.json')
@@ -240,9 +255,9 @@ def main():
         else:
             not_repro.append(sig)
             lines.append('HARNESS-ERROR property=%s violation did not reproduce in a fresh interpreter: %s\n%s' % (pid, sig, out[-800:]))
-    if len(unknown) > MAX_CONFIRM:
+    if len(unknown) > tried:
         lines.append('... %d further unlisted violation signatures not individually confirmed: %s' % (
-            len(unknown) - MAX_CONFIRM, unknown[MAX_CONFIRM:MAX_CONFIRM + 20]))
+            len(unknown) - tried, unknown[tried:tried + 20]))
     if confirmed_unknown:
         exit_code = 1
     elif not_repro:
